@@ -26,6 +26,7 @@ import Gama.Lemmas.StatanHill
 import Gama.Lemmas.StatanGenTie
 import Gama.Lemmas.StatanChiMono
 import Gama.Lemmas.StatanHillMono
+import Gama.Lemmas.StatanHillFirst
 namespace Gama.Props.C17
 open Gama Gama.Statan Real
 
@@ -476,5 +477,40 @@ theorem C17_student_mono_N3 (fuel : ℕ) {α β : ℝ} (h0 : 0 < α) (hab : α <
   exact ⟨h.1, h.2.1⟩
 
 example : (0 : ℝ) < 0.005 ∧ (0.005 : ℝ) < 0.025 ∧ (0.025 : ℝ) ≤ 1 / 24 := by norm_num
+
+/-! ## Round 13: `Student`, N ≥ 3 — the FIRST Hill branch
+
+`y = (d·2α)^(2/N) > a + 0.05`: `Student = sqrt(N · hillExp(a · y₁²))`, `y₁ = hillY1 … x`, `x = −Normal(α)`
+(`Normal(0.5·alfa)` with `alfa = 2α`): the probability enters through `Normal` only.  The OUTER part is proved monotone in
+full, including the switch `y ≤ 0.002 ? 0.5y² + y : exp(y) − 1`.  RESIDUE (hypothesis `hY`): `y₁²` strictly increasing in
+`|x|` — `y₁ = x·(1 + (P(x²)/C(x) − x² − 3)/b)`, a rational function of x with parameters (N, r, b, c, d); with `Normal`
+decreasing (`x_β > x_α`) it is exactly what is missing.  The junction `y = a + 0.05` between the two branches compares a closed
+form with a value of `Normal`: it needs an enclosure of `NormalDistribution`'s series, not attempted (oracle). -/
+
+/-- **outer map of the first branch** strictly increasing on [0, ∞) across its switch at 0.002 (`1 + y + y²/2 ≤ exp y`) -/
+theorem C17_hill_first_outer_mono {s t : ℝ} (hs : 0 ≤ s) (hst : s < t) : hillExp s < hillExp t ∧ 0 ≤ hillExp s :=
+  ⟨hillExp_strictMono hs hst, hillExp_nonneg hs⟩
+
+/-- **Student, N ≥ 3, first branch, on the regenerated function**: `0 < α < β < ½`, both in the first branch, `y₁²` ordered
+    (hypothesis `hY`: the residue named above) ⇒ `Student(β, N) < Student(α, N)`; every N ≥ 3 (no upper bound here) -/
+theorem C17_student_mono_hill_first (fuel : ℕ) {N : ℤ} (hN : 3 ≤ N) {α β : ℝ} (hab : α < β) (hb : β < 1 / 2)
+    (hbu : (hillABCD (Scalar.ofInt N : ℝ)).1 + 1 / 20 < hillY N (α * 2))
+    (hbv : (hillABCD (Scalar.ofInt N : ℝ)).1 + 1 / 20 < hillY N (β * 2))
+    (hY : hillY1 N (Scalar.ofInt N : ℝ) (hillABCD (Scalar.ofInt N : ℝ)).2.1 (hillABCD (Scalar.ofInt N : ℝ)).2.2.1
+            (hillABCD (Scalar.ofInt N : ℝ)).2.2.2 (-(normal fuel (lit 5 1 * (β * 2)))) ^ 2
+        < hillY1 N (Scalar.ofInt N : ℝ) (hillABCD (Scalar.ofInt N : ℝ)).2.1 (hillABCD (Scalar.ofInt N : ℝ)).2.2.1
+            (hillABCD (Scalar.ofInt N : ℝ)).2.2.2 (-(normal fuel (lit 5 1 * (α * 2)))) ^ 2) :
+    Gen.Statan.Student fuel β N < Gen.Statan.Student fuel α N := by
+  simp only [← student_eq_gen]
+  exact student_hill_first_mono fuel hN hab hb hbu hbv hY
+
+-- non-vacuity of the outer map: both pieces and the switch
+example : (0 : ℝ) ≤ 1 / 1000 ∧ (1 / 1000 : ℝ) < 1 / 100 := by norm_num
+
+/-- **`KSprob` is the function the source defines now** (round 13), every scalar type: the constants `1e-20`, `1.18`, `8`, `-2`,
+    the start values of both loops and the closing factor; the loop bodies are pinned text (any change stops the translator),
+    their exit tests regenerated fragments (`StatanGen.ksStop1`, `ksContinue2`), the fuel covered by `C17_ks_fuel` -/
+theorem C17_ksprob_source_tie {K : Type} [Scalar K] [Transc K] (x : K) : ksProb x = Gen.Statan.KSprob x :=
+  ksProb_eq_gen x
 
 end Gama.Props.C17
